@@ -194,46 +194,64 @@ def run(ctx):
             raise vlib.Machinery("binding canary %d (%s): TLC said %r, expected %r" % (k, e["ev"], got, want))
     ctx.traces += len(evs)
 
-    # reproduce each rejection alone in a fresh process
-    seen = {}
+    # reproduce rejections in fresh processes: up to 3 cases per (event kind, reason), each executed by its own harness
+    # process, all re-judged by one more TLC run; further cases with the same (kind, reason) are counted, not re-run
+    chosen, per = [], {}
     for i, why in sorted(rejected.items()):
+        key = (evs[i]["ev"], why)
+        per.setdefault(key, []).append(i)
+        if len(per[key]) <= 3:
+            chosen.append(i)
+    again = []
+    for i in chosen:
+        cmd, cin = case_of(evs[i])
+        r = ctx.drv(cmd, cin, prog="prng", name="re%d" % i)
+        if len(r) != 1:
+            raise vlib.Machinery("replay of event %d produced %d events" % (i, len(r)))
+        again.append(r[0])
+    r2 = tlc_trace(ctx, again) if again else {}
+    first = {}
+    for k, i in enumerate(chosen):
         e = evs[i]
-        sig = sig_of(e, why)
-        if seen.get(sig, 0) >= 3:          # same signature: count it, do not re-run hundreds of times
-            ctx.finding(sig, seen[sig + "/what"], seen[sig + "/replay"])
-            continue
-        cmd, cin = case_of(e)
-        again = ctx.drv(cmd, cin, prog="prng", name="re%d" % i)
-        r2 = tlc_trace(ctx, again)
-        if 0 not in r2:
-            raise vlib.Machinery("event %d rejected (%s) but the rejection did not reproduce" % (i, why))
+        if k not in r2:
+            raise vlib.Machinery("event %d rejected (%s) but the rejection did not reproduce" % (i, rejected[i]))
         what = "%s: %s" % ({"V": "quicvarint value %s" % bytes(e.get("x", [])).hex(), "R": "quicvarint.Read(%s)" % bytes(e.get("in", [])).hex(),
-                           "TP": "TransportParameters.Marshal of %s" % [d["kind"] for d in e.get("ds", [])]}[e["ev"]], r2[0])
-        replay = {"command": cmd, "input": cin, "observed": again[0], "why": r2[0]}
-        seen[sig] = seen.get(sig, 0) + 1
-        seen[sig + "/what"], seen[sig + "/replay"] = what, replay
-        ctx.finding(sig_of(e, r2[0]), what, replay)
+                           "TP": "TransportParameters.Marshal of %s" % [d["kind"] for d in e.get("ds", [])]}[e["ev"]], r2[k])
+        cmd, cin = case_of(e)
+        replay = {"command": cmd, "input": cin, "observed": again[k], "why": r2[k]}
+        first.setdefault((e["ev"], rejected[i]), (sig_of(e, r2[k]), what, replay))
+        ctx.finding(sig_of(e, r2[k]), what, replay)
+    for key, idx in per.items():
+        for i in idx[3:]:
+            sig, what, replay = first[key]
+            ctx.finding(sig, what, replay)
 
     # ------------------------------------------------------------------ 5. vacuity
+    # classes are computed from the INPUTS of the executed cases (coverage accounting, no judgement of outcomes)
     V = [e for e in evs if e["ev"] == "V"]
-    classes = {"len%d" % n: sum(1 for e in V if e["len"]["panic"] == "" and e["len"]["n"] == n) for n in (1, 2, 4, 8)}
-    classes["refused"] = sum(1 for e in V if e["append"]["panic"] != "")
-    classes["awl_padded"] = sum(1 for e in V for a in e["awl"] if a["panic"] == "" and len(a["out"]) - len(e["prefix"]) > max(e["len"]["n"], 1))
-    classes["awl_too_small"] = sum(1 for e in V for a in e["awl"] if a["panic"] != "" and a["w"] in (1, 2, 4) and e["append"]["panic"] == "")
-    classes["awl_bad_width"] = sum(1 for e in V for a in e["awl"] if a["w"] in (0, 3, 16))
     R = [e for e in evs if e["ev"] == "R"]
-    classes["read_ok"] = sum(1 for e in R if e["rd"]["err"] == "")
-    classes["read_truncated"] = sum(1 for e in R if e["rd"]["err"] != "")
-    minlen = lambda v: 1 if v < 2**6 else 2 if v < 2**14 else 4 if v < 2**30 else 8          # coverage accounting only
-    classes["read_nonminimal"] = sum(1 for e in R if e["rd"]["err"] == "" and e["rd"]["used"] > minlen(u64(e["rd"]["val"])))
     TP = [e for e in evs if e["ev"] == "TP"]
-    classes["tp_marshaled"] = sum(1 for e in TP if e["panic"] == "")
-    classes["tp_refused"] = sum(1 for e in TP if e["panic"] != "")
-    classes["tp_grease_random_id"] = sum(1 for e in TP if e["panic"] == "" and any(d["kind"] == "GREASE" and u64(d["id"]) % 31 != 27 for d in e["ds"]))
-    classes["tp_grease_random_value"] = sum(1 for e in TP if e["panic"] == "" and any(d["kind"] == "GREASE" and not d["val"] and d["length"] for d in e["ds"]))
-    classes["tp_fake"] = sum(1 for e in TP if e["panic"] == "" and any(d["kind"] == "Fake" for d in e["ds"]))
+    minlen = lambda v: 1 if v < 2**6 else 2 if v < 2**14 else 4 if v < 2**30 else 8 if v < 2**62 else 0
+    classes = {"len%d" % n: sum(1 for e in V if minlen(u64(e["x"])) == n) for n in (1, 2, 4, 8)}
+    classes["refused"] = sum(1 for e in V if minlen(u64(e["x"])) == 0)
+    classes["awl_padded"] = sum(1 for e in V for a in e["awl"] if a["w"] in (1, 2, 4, 8) and 0 < minlen(u64(e["x"])) < a["w"])
+    classes["awl_too_small"] = sum(1 for e in V for a in e["awl"] if a["w"] in (1, 2, 4) and minlen(u64(e["x"])) > a["w"])
+    classes["awl_bad_width"] = sum(1 for e in V for a in e["awl"] if a["w"] not in (1, 2, 4, 8))
+    need = lambda b: 1 << (b[0] >> 6)
+    classes["read_ok"] = sum(1 for e in R if e["in"] and len(e["in"]) >= need(e["in"]))
+    classes["read_truncated"] = sum(1 for e in R if not e["in"] or len(e["in"]) < need(e["in"]))
+    classes["read_nonminimal"] = sum(1 for e in R if e["in"] and len(e["in"]) >= need(e["in"]) and need(e["in"]) > 1 and
+                                     minlen(u64([e["in"][0] & 63] + e["in"][1:need(e["in"])])) < need(e["in"]))
+    def refuses(d):
+        return (d["kind"] in VARINT_KINDS and u64(d["v"]) >= 2**62) or (d["kind"] == "Fake" and (u64(d["id"]) == 0 or u64(d["id"]) >= 2**62)) or \
+               (d["kind"] == "GREASE" and u64(d["id"]) >= 2**62 and u64(d["id"]) % 31 == 27)
+    classes["tp_marshalable"] = sum(1 for e in TP if not any(refuses(d) for d in e["ds"]))
+    classes["tp_to_refuse"] = sum(1 for e in TP if any(refuses(d) for d in e["ds"]))
+    classes["tp_grease_random_id"] = sum(1 for e in TP if any(d["kind"] == "GREASE" and u64(d["id"]) % 31 != 27 for d in e["ds"]))
+    classes["tp_grease_random_value"] = sum(1 for e in TP if any(d["kind"] == "GREASE" and not d["val"] and d["length"] for d in e["ds"]))
+    classes["tp_fake"] = sum(1 for e in TP if any(d["kind"] == "Fake" for d in e["ds"]))
     classes["tp_version_grease"] = sum(1 for e in TP if any(d["kind"] == "VersionInformation" and [10, 10, 10, 10] in d["avail"] for d in e["ds"]))
-    classes["tp_long_value"] = sum(1 for e in TP if e["panic"] == "" and any(len(d["val"]) >= 64 for d in e["ds"]))
+    classes["tp_long_value"] = sum(1 for e in TP if any(len(d["val"]) >= 64 for d in e["ds"]))
     for k, v in classes.items():
         if v == 0:
             raise vlib.Machinery("vacuity: no executed case of class %s" % k)
